@@ -40,6 +40,17 @@ def run(sh):
         seed = core.stable_int(sh.seed, 'C08', 'fanout', i) % (1 << 40)
         spec = modelgen.generate_fanout(seed, pol[i % 4])
         engine_line.run_spec(sh, 'C08', spec, MONITORS, lambda f: f.get('idle_judged', 0) > 0)
+    # the same with one-decimal cycle times: idle-since instants one unit in the last place apart
+    for i in sh.share(n // 4):
+        seed = core.stable_int(sh.seed, 'C08', 'fanout_decimal', i) % (1 << 40)
+        spec = modelgen.generate_fanout(seed, pol[i % 4], decimal=True)
+        engine_line.run_spec(sh, 'C08', spec, MONITORS, lambda f: f.get('idle_judged', 0) > 0, prefix='decimal_')
+
+
+    ncomb = len(modelgen.near_tie_combos())
+    for i in sh.share(ncomb * (8 if sh.tier == 'quick' else 32)):
+        engine_line.run_spec(sh, 'C08', modelgen.generate_near_tie(i, pol[i % 4]), MONITORS,
+                             lambda f: f.get('idle_judged', 0) > 0, prefix='near_tie_')
 
 
 def replay(sh, v):
